@@ -141,8 +141,10 @@ SeriesRename(s, name) == MkSeries(s.index, s.vals, s.dt, name)
 (* Frame.insert_before / insert_after(key, container): the container's columns are placed before / after the   *)
 (* column labelled key; a Series contributes one column labelled by its name; rows must align exactly.          *)
 SpliceAt(seq, pos, new) == SubSeq(seq, 1, pos) \o new \o SubSeq(seq, pos + 1, Len(seq))    \* pos = number of items kept in front
+(* the key of an insert: a label, or <<"iloc", k>> - a position, negative ones counting from the end (ILoc[-1] is the last) *)
+InsertPos(labels, key) == IF key[1] = "iloc" THEN NormPos(key[2], Len(labels)) ELSE Find(labels, key)
 FrameInsert(f, key, after, ins) ==
-  LET p == Find(f.columns, key) IN
+  LET p == InsertPos(f.columns, key) IN
   IF p < 0 THEN Err("lookup")
   ELSE LET pos == IF after THEN p + 1 ELSE p
            ncolumns == SpliceAt(f.columns, pos, ins.columns)
@@ -150,7 +152,7 @@ FrameInsert(f, key, after, ins) ==
           ELSE IF ~Unique(ncolumns) THEN Err("init_nonunique")
           ELSE MkFrame(f.index, ncolumns, SpliceAt(f.cols, pos, ins.cols), f.name)
 SeriesInsert(s, key, after, ins) ==
-  LET p == Find(s.index, key) IN
+  LET p == InsertPos(s.index, key) IN
   IF p < 0 THEN Err("lookup")
   ELSE LET pos == IF after THEN p + 1 ELSE p
            nindex == SpliceAt(s.index, pos, ins.index)
